@@ -36,6 +36,10 @@ CHECKS = {
    text="Fault enumeration over host-call indexes: call-tree programs with marker host calls make the failing statement and the active call chain known by construction; every k-th host call is failed in turn, planted sentinel failures (index out of bounds, string/bytes limit, ill-typed operand, non-callable), the frame-limit ladder and an allocation-budget sweep are run; the reported location, every trace entry and errors.Is identity are compared with the constructed expectation. Programs are sampled; the fault index space of each program is enumerated.",
    note="Locations are checked at file+line granularity (one statement per line by construction); failing VM-internal operation kinds are covered where the generator plants them (sampled, not enumerated).",
    tech="fault enumeration: fail the k-th host call / N-th allocation / frame supply for every k on marker-instrumented call-tree workloads; expectation known by construction"),
+ "C15": dict(cat="exploration", ref="DESIGN.md 5.6",
+   text="Generated API histories (Add/Remove/Compile/Run/RunContext/Set/Get with every typed accessor/GetAll/IsDefined/Clone/Eval, values of every documented Go kind incl. nested containers and unsupported kinds) are executed by one simulated client - with cancellation, failing or panicking host calls and allocation budgets injected inside runs - and refined operation by operation against a small executable reference model written from the documented conversion and coercion tables; histories of 2-3 concurrent clients on one object and its clones, stamped with controller decision numbers, are checked for linearizability against the same model with porcupine. Sampling, not proof.",
+   note="Trusts the reference model (sim/model.go, ~500 lines, follows docs/interoperability.md and docs/runtime-types.md), porcupine, and the closed-form meaning of the effect DSL. Cells the documentation leaves open are not asserted. After an injected fault the model is nondeterministic exactly at that run (set of prefix states); fault-free histories are compared exactly.",
+   tech="deterministic simulation: generated API histories with injected in-run faults vs executable reference model (sequential refinement; porcupine linearizability for concurrent clients)"),
  "C07": dict(cat="exploration", ref="DESIGN.md 5.1",
    text="Seeded search over cancellation instants (every hand-off site of RunContext, any VM instruction, during a blocking host call, after return), context kinds, caller stalls and thread interleavings of {caller, VM goroutine, fake clock}, on the real code; oracles: returned error vs. context state and vs. the undisturbed run, bounded-step promptness, no VM activity or goroutine after return, re-run equals a fresh object. Sampling, not proof.",
    note="Trusts the guarded hooks (no-ops without the tag), testing/synctest quiescence detection and the simulator's own bookkeeping; interleavings within one VM instruction and the runtime's coin flip in a both-ready select are not explored.",
